@@ -1,7 +1,482 @@
-From Coq Require Import ZArith NArith List Lia ZifyN ZifyNat ZifyBool.
-From Verif Require Import Base.Word Model.TcQos Model.QosMgr Model.TcQosSpec.
+(* Lemmas for C19 (Model/TcQos.v, Model/QosMgr.v, Model/TcQosSpec.v). *)
+From Coq Require Import ZArith NArith List Bool Lia ZifyN ZifyNat ZifyBool.
+From Verif Require Import Base.Word Base.Check Model.TcQos Model.QosMgr Model.TcQosSpec.
 Import ListNotations.
 Local Open Scope N_scope.
 
+(* ------------------------------------------------------------------ arithmetic helpers *)
+Lemma W64_pos : 0 < W64. Proof. reflexivity. Qed.
+Lemma G_pos : 0 < G. Proof. reflexivity. Qed.
+
+Lemma wrap64_small a : a < W64 -> wrap64 a = a.
+Proof. intros H. rewrite wrap64_mod. apply N.mod_small. exact H. Qed.
+
+Lemma wrap64_le a : wrap64 a <= a.
+Proof. rewrite wrap64_mod. apply N.mod_le. discriminate. Qed.
+
+Lemma sub64_mono a b : b <= a -> a < W64 -> sub64 a b = a - b.
+Proof.
+  intros Hle Hlt. unfold sub64. rewrite (wrap64_small b) by lia. rewrite wrap64_mod.
+  replace (a + W64 - b) with ((a - b) + 1 * W64) by lia.
+  rewrite N.mod_add by discriminate. apply N.mod_small. lia.
+Qed.
+
+Lemma rate8_div t : rate8 t = rate t / 8.
+Proof. unfold rate8. rewrite N.shiftr_div_pow2. reflexivity. Qed.
+
+(* ------------------------------------------------------------------ packet sequences on one bucket *)
+(* admitted bytes of a sequence of (now, len) offered to one bucket *)
+Fixpoint run (t : tb) (pks : list (N * N)) : tb * N :=
+  match pks with
+  | [] => (t, 0)
+  | (now, len) :: r =>
+      let '(t1, ok) := tb_step t now len in
+      let '(t2, s) := run t1 r in (t2, (if ok then len else 0) + s)
+  end.
+
+(* arrival times non-decreasing from t0, inside [0, 2^64) *)
+Fixpoint mono (t0 : N) (pks : list (N * N)) : Prop :=
+  match pks with
+  | [] => True
+  | (now, _) :: r => t0 <= now /\ now < W64 /\ mono now r
+  end.
+
+Definition last_time (t0 : N) (pks : list (N * N)) : N := fold_left (fun _ p => fst p) pks t0.
+
+Lemma last_time_cons t0 p r : last_time t0 (p :: r) = last_time (fst p) r.
+Proof. reflexivity. Qed.
+
+Lemma mono_last t0 pks : mono t0 pks -> t0 <= last_time t0 pks.
+Proof.
+  revert t0; induction pks as [|[now len] r IH]; intros t0; cbn [mono]; [unfold last_time; cbn; lia|].
+  intros (H1 & _ & H3). rewrite last_time_cons. cbn [fst]. specialize (IH _ H3). lia.
+Qed.
+
+(* configuration quantified by the property: tokens <= burst, burst a 32-bit value, last a 64-bit value *)
+Definition wf (t : tb) : Prop := tokens t <= burst t /\ burst t < W32 /\ last t < W64.
+
+Lemma refill_bound t now : wf t -> last t <= now -> now < W64 ->
+  tb_refill t now <= burst t /\ tb_refill t now <= tokens t + (now - last t) * rate8 t / G.
+Proof.
+  intros (Ht & Hb & Hl) Hle Hlt. unfold tb_refill, refill_product. rewrite sub64_mono by lia.
+  set (p := (now - last t) * rate8 t).
+  assert (Hd : wrap64 p / G <= p / G) by (apply N.div_le_mono; [discriminate|apply wrap64_le]).
+  assert (Hs : wrap64 p / G < W64).
+  { apply N.div_lt_upper_bound; [discriminate|]. pose proof (wrap64_lt p). unfold G, W64 in *. lia. }
+  assert (Hq : wrap64 p / G <= 18446744073).
+  { apply N.lt_succ_r. apply N.div_lt_upper_bound; [discriminate|]. pose proof (wrap64_lt p). unfold G, W64 in *. lia. }
+  set (newt := wrap64 p / G) in *. clearbody newt p.
+  unfold add64. rewrite wrap64_small by (unfold W32, W64 in *; lia).
+  destruct (burst t <? tokens t + newt) eqn:E; lia.
+Qed.
+
+Lemma step_bound t now len : wf t -> rate t <> 0 -> last t <= now -> now < W64 ->
+  let '(t1, ok) := tb_step t now len in
+  wf t1 /\ last t1 = now /\ rate t1 = rate t /\ burst t1 = burst t /\
+  (if ok then len else 0) + tokens t1 <= tokens t + (now - last t) * rate8 t / G /\
+  (if ok then len else 0) + tokens t1 <= burst t.
+Proof.
+  intros Hwf Hr Hle Hlt. pose proof (refill_bound t now Hwf Hle Hlt) as (Hb1 & Hb2).
+  destruct Hwf as (Ht & Hb & Hl). unfold tb_step.
+  destruct (rate t =? 0) eqn:Er; [lia|].
+  set (t2 := tb_refill t now) in *. clearbody t2.
+  destruct (len <=? t2) eqn:El; unfold wf; cbn [tokens last rate burst prio]; repeat split; lia.
+Qed.
+
+Lemma div_add_le x y : x / G + y / G <= (x + y) / G.
+Proof.
+  pose proof (N.div_mod x G ltac:(discriminate)). pose proof (N.div_mod y G ltac:(discriminate)).
+  apply N.div_le_lower_bound; [discriminate|]. unfold G in *. lia.
+Qed.
+
+Lemma run_bound pks : forall t, wf t -> rate t <> 0 -> mono (last t) pks ->
+  let '(t2, s) := run t pks in
+  wf t2 /\ rate t2 = rate t /\ burst t2 = burst t /\ last t2 = last_time (last t) pks /\
+  s + tokens t2 <= tokens t + (last_time (last t) pks - last t) * rate8 t / G.
+Proof.
+  induction pks as [|[now len] r IH]; intros t Hwf Hr Hm; cbn [run].
+  - unfold last_time; cbn. rewrite N.sub_diag. cbn. repeat split; try lia; apply Hwf.
+  - cbn [mono] in Hm. destruct Hm as (Hle & Hlt & Hm).
+    pose proof (step_bound t now len Hwf Hr Hle Hlt) as Hs.
+    destruct (tb_step t now len) as [t1 ok].
+    destruct Hs as (Hwf1 & Hl1 & Hr1 & Hb1 & Hineq & _).
+    rewrite <- Hl1 in Hm. specialize (IH t1 Hwf1 ltac:(congruence) Hm).
+    destruct (run t1 r) as [t2 s].
+    destruct IH as (Hwf2 & Hr2 & Hb2 & Hl2 & Hineq2).
+    rewrite last_time_cons. cbn [fst]. rewrite Hl1 in *.
+    assert (Hr8 : rate8 t1 = rate8 t) by (unfold rate8; congruence). rewrite Hr8 in *.
+    pose proof (mono_last _ _ Hm) as Hml.
+    set (T := last_time now r) in *.
+    pose proof (div_add_le ((now - last t) * rate8 t) ((T - now) * rate8 t)) as Hfl.
+    replace ((now - last t) * rate8 t + (T - now) * rate8 t) with ((T - last t) * rate8 t) in Hfl by nia.
+    repeat split; try congruence; try apply Hwf2; lia.
+Qed.
+
+(* The property's upper bound, window form: take any history [pre], then any window of packets starting
+   with the packet at [now]: the bytes admitted in the window are at most
+   burst + (rate/8) * (window length in ns) / 10^9. *)
+Definition admitted_after (t : tb) (pre win : list (N * N)) : N := snd (run (fst (run t pre)) win).
+
+Theorem admitted_upper_bound : forall t pre now len rest,
+  wf t -> rate t <> 0 -> mono (last t) (pre ++ (now, len) :: rest) ->
+  admitted_after t pre ((now, len) :: rest) <= burst t + (last_time now rest - now) * (rate t / 8) / G.
+Proof.
+  intros t pre now len rest Hwf Hr Hm. unfold admitted_after.
+  assert (Hsplit : forall l1 l2 t0, mono t0 (l1 ++ l2) -> mono t0 l1 /\ mono (last_time t0 l1) l2).
+  { induction l1 as [|[n l] l1 IH]; intros l2 t0 H; cbn [app mono] in *; [unfold last_time; cbn; tauto|].
+    destruct H as (H1 & H2 & H3). destruct (IH _ _ H3). rewrite last_time_cons. cbn [fst]. tauto. }
+  destruct (Hsplit _ _ _ Hm) as (Hm1 & Hm2).
+  pose proof (run_bound pre t Hwf Hr Hm1) as Hp. destruct (run t pre) as [t1 s1]. cbn [fst].
+  destruct Hp as (Hwf1 & Hr1 & Hb1 & Hl1 & _). rewrite <- Hl1 in Hm2.
+  cbn [run]. cbn [mono] in Hm2. destruct Hm2 as (Hle & Hlt & Hm3).
+  pose proof (step_bound t1 now len Hwf1 ltac:(congruence) Hle Hlt) as Hs.
+  destruct (tb_step t1 now len) as [t2 ok]. destruct Hs as (Hwf2 & Hl2 & Hr2 & Hb2 & _ & Hcap).
+  rewrite <- Hl2 in Hm3.
+  pose proof (run_bound rest t2 Hwf2 ltac:(congruence) Hm3) as Hq. destruct (run t2 rest) as [t3 s3]. cbn [snd].
+  destruct Hq as (_ & _ & _ & _ & Hineq). rewrite Hl2 in Hineq.
+  rewrite <- rate8_div. assert (H8 : rate8 t2 = rate8 t) by (unfold rate8; congruence). rewrite H8 in Hineq.
+  destruct ok; lia.
+Qed.
+
+(* ------------------------------------------------------------------ rate 0 = unlimited *)
 Lemma rate_zero_step t now len : rate t = 0 -> tb_step t now len = (t, true).
 Proof. intros H. unfold tb_step. rewrite H. reflexivity. Qed.
+
+Theorem rate_zero_admits_all : forall pks t, rate t = 0 ->
+  run t pks = (t, fold_right (fun p a => snd p + a) 0 pks).
+Proof.
+  induction pks as [|[now len] r IH]; intros t H; cbn [run]; [reflexivity|].
+  rewrite rate_zero_step by exact H. rewrite IH by exact H. reflexivity.
+Qed.
+
+(* program level: whatever the frame, clock and packet length, a hit on an entry with rate 0 passes and
+   leaves the map untouched *)
+Theorem rate_zero_prog : forall d m f plen now pin key v t,
+  qos_lookup d m f = LHit key v t -> rate t = 0 ->
+  exists p, qos_prog d m f plen now pin = (m, VRet TC_ACT_OK p, []).
+Proof.
+  intros d m f plen now pin key v t Hl Hr. unfold qos_prog. rewrite Hl. rewrite rate_zero_step by exact Hr.
+  rewrite Hr. cbn. destruct d; eexists; reflexivity.
+Qed.
+
+(* ------------------------------------------------------------------ Model traces through the monitor *)
+Definition model_io (ops : list op) : list (op * out) :=
+  map (fun x => (fst (fst x), snd (fst x))) (model_trace step init ops).
+(* (step, clause+1) of the first rejection of the Model's own trace, (0,0) when accepted *)
+Definition model_verdict (ops : list op) : N * N := accept_trace accept 1 sinit (model_io ops).
+
+Definition sub1 : bytes := [10; 0; 0; 1].
+Definition raw_bucket (tok lst r b : N) : bytes := tb_encode {| tokens := tok; last := lst; rate := r; burst := b; prio := 0 |}.
+
+(* (i) 8 kbit/s = 1000 byte/s, burst 1500, a 100-byte packet offered every 999 999 ns (refill floor(0.999) = 0
+   every time, last_update advanced every time): after the initial burst nothing is ever admitted; the
+   monitor rejects when the credit discarded while the subscriber was being refused exceeds burst + 65535 *)
+Definition starve_trunc_ops : list op :=
+  [PutRaw Egress sub1 (raw_bucket 1500 1000 8000 1500); Rep Egress sub1 100 1000 999999 70000].
+Lemma starve_trunc_rejected : model_verdict starve_trunc_ops = (2, 2).
+Proof. vm_compute. reflexivity. Qed.
+
+(* (ii) 100 Gbit/s: a gap of 1.4757 s makes elapsed * (rate/8) = 2^64 + 1.29e9: the refill is 1 token
+   instead of a full bucket; the packet refused before the gap is refused again after it *)
+Definition starve_wrap_ops : list op :=
+  [PutRaw Egress sub1 (raw_bucket 0 0 100000000000 1500); Sub Egress sub1 1500 0; Sub Egress sub1 1500 1475739526].
+Lemma starve_wrap_rejected : model_verdict starve_wrap_ops = (3, 2).
+Proof. vm_compute. reflexivity. Qed.
+
+Definition no_starvation_statement : Prop := forall ops, snd (model_verdict ops) <> 2.
+
+Theorem no_starvation_refuted : ~ no_starvation_statement.
+Proof. intros H. apply (H starve_trunc_ops). rewrite starve_trunc_rejected. reflexivity. Qed.
+
+Theorem no_starvation_refuted_by_wrap : exists ops, snd (model_verdict ops) = 2 /\
+  exists t now, refill_product t now >= W64 /\ In (PutRaw Egress sub1 (tb_encode t)) ops.
+Proof.
+  exists starve_wrap_ops. split; [rewrite starve_wrap_rejected; reflexivity|].
+  exists {| tokens := 0; last := 0; rate := 100000000000; burst := 1500; prio := 0 |}, 1475739526.
+  split; [vm_compute; discriminate|left; reflexivity].
+Qed.
+
+(* the starvation is permanent: whenever every gap is shorter than one token period (gap * rate/8 < 10^9)
+   the refill is 0 forever, whatever the number of packets *)
+Lemma zero_refill t now : wf t -> last t <= now -> now < W64 -> (now - last t) * rate8 t < G ->
+  tb_refill t now = tokens t.
+Proof.
+  intros (Ht & Hb & Hl) Hle Hlt Hp. unfold tb_refill, refill_product. rewrite sub64_mono by lia.
+  rewrite wrap64_small by (unfold G, W64 in *; lia). rewrite N.div_small by exact Hp.
+  unfold add64. rewrite N.add_0_r. rewrite wrap64_small by (unfold W32, W64 in *; lia).
+  destruct (burst t <? tokens t) eqn:E; lia.
+Qed.
+
+Fixpoint arrivals (n : nat) (now gap len : N) : list (N * N) :=
+  match n with O => [] | S k => (now + gap, len) :: arrivals k (now + gap) gap len end.
+
+Theorem starved_forever : forall n t gap len,
+  wf t -> rate t <> 0 -> gap * rate8 t < G -> tokens t < len -> last t + N.of_nat n * gap < W64 ->
+  snd (run t (arrivals n (last t) gap len)) = 0.
+Proof.
+  induction n as [|n IH]; intros t gap len Hwf Hr Hg Htok Hend; [reflexivity|].
+  cbn [arrivals run]. unfold tb_step. destruct (rate t =? 0) eqn:Er; [lia|].
+  assert (Hn : last t + gap <= last t + N.of_nat (S n) * gap) by nia.
+  assert (Hn2 : last t + gap + N.of_nat n * gap < W64) by nia.
+  assert (Hz : tb_refill t (last t + gap) = tokens t).
+  { apply zero_refill; [exact Hwf|lia|lia|]. replace (last t + gap - last t) with gap by lia. exact Hg. }
+  rewrite Hz. destruct (len <=? tokens t) eqn:El; [lia|].
+  set (t1 := {| tokens := tokens t; last := last t + gap; rate := rate t; burst := burst t; prio := prio t |}).
+  assert (H0 : snd (run t1 (arrivals n (last t1) gap len)) = 0).
+  { apply IH.
+    - destruct Hwf as (H1 & H2 & H3). unfold wf, t1; cbn [tokens last burst]. lia.
+    - exact Hr.
+    - exact Hg.
+    - exact Htok.
+    - unfold t1; cbn [last]. exact Hn2. }
+  unfold t1 in H0 at 2. cbn [last] in H0.
+  destruct (run t1 (arrivals n (last t + gap) gap len)) as [t2 s]. cbn [snd] in *. lia.
+Qed.
+
+(* ------------------------------------------------------------------ control plane -> data path *)
+Lemma le_n_length n : forall v, length (le_n n v) = n.
+Proof. induction n; intros v; cbn; [reflexivity|]. rewrite IHn. reflexivity. Qed.
+
+Lemma le_v_le_n n : forall v, v < 256 ^ N.of_nat n -> le_v (le_n n v) = v.
+Proof.
+  induction n as [|n IH]; intros v Hv.
+  - cbn in *. lia.
+  - cbn [le_n le_v]. rewrite IH.
+    + change 255 with (N.ones 8). rewrite N.land_ones, N.shiftr_div_pow2. change (2 ^ 8) with 256.
+      pose proof (N.div_mod v 256 ltac:(discriminate)). lia.
+    + rewrite N.shiftr_div_pow2. change (2 ^ 8) with 256.
+      apply N.div_lt_upper_bound; [discriminate|].
+      replace (N.of_nat (S n)) with (N.succ (N.of_nat n)) in Hv by lia. rewrite N.pow_succ_r' in Hv. exact Hv.
+Qed.
+
+Lemma firstn_le_n n v r : firstn n (le_n n v ++ r) = le_n n v.
+Proof.
+  rewrite <- (le_n_length n v) at 1. rewrite firstn_app, Nat.sub_diag, firstn_all. cbn. apply app_nil_r.
+Qed.
+Lemma skipn_le_n n v r : skipn n (le_n n v ++ r) = r.
+Proof.
+  rewrite <- (le_n_length n v) at 1. rewrite skipn_app, Nat.sub_diag, skipn_all. reflexivity.
+Qed.
+
+Lemma skipn_add {A} a : forall b (l : list A), skipn (a + b) l = skipn b (skipn a l).
+Proof. induction a as [|a IH]; intros b l; [reflexivity|]. destruct l; cbn; [destruct b; reflexivity|apply IH]. Qed.
+
+Lemma nth28 (a b c d x : bytes) : length a = 8%nat -> length b = 8%nat -> length c = 8%nat -> length d = 4%nat ->
+  nth 28 (a ++ b ++ c ++ d ++ x) 0 = nth 0 x 0.
+Proof.
+  intros Ha Hb Hc Hd. rewrite !app_assoc. rewrite app_nth2; rewrite !app_length, Ha, Hb, Hc, Hd; [reflexivity|lia].
+Qed.
+
+Lemma decode_full r b p : r < W64 -> b < W32 -> p < 256 ->
+  tb_decode (full_bucket r b p) = Some {| tokens := b; last := 0; rate := r; burst := b; prio := p |}.
+Proof.
+  intros Hr Hb Hp. unfold full_bucket, tb_encode, tb_decode. cbn [tokens last rate burst prio].
+  rewrite !app_length, !le_n_length. cbn [length Nat.add N.of_nat N.eqb Pos.of_succ_nat Pos.succ Pos.eqb].
+  rewrite nth28 by apply le_n_length. cbn [nth].
+  rewrite firstn_le_n.
+  change 24%nat with (8 + (8 + 8))%nat. change 16%nat with (8 + 8)%nat.
+  rewrite !skipn_add. rewrite !skipn_le_n. rewrite !firstn_le_n.
+  rewrite !le_v_le_n by (cbn; unfold W64, W32 in *; lia).
+  change 255 with (N.ones 8). rewrite N.land_ones. rewrite (N.mod_small p) by exact Hp. reflexivity.
+Qed.
+
+Lemma m_get_put m : forall k v, m_get (m_put m k v) k = Some v.
+Proof.
+  assert (Hr : forall k, bytes_eqb k k = true) by (intros k; apply bytes_eqb_eq; reflexivity).
+  induction m as [|[k' v'] m IH]; intros k v; cbn; [rewrite Hr; reflexivity|].
+  destruct (bytes_eqb k k') eqn:E; cbn; [rewrite Hr; reflexivity|].
+  destruct (lex_leb k k'); cbn; [rewrite Hr; reflexivity|]. rewrite E. apply IH.
+Qed.
+
+Lemma lookup_sub_frame d m a b c e :
+  qos_lookup d m (sub_frame d [a; b; c; e]) =
+  match m_get m [a; b; c; e] with
+  | None => LPass
+  | Some v => match tb_decode v with None => LOob | Some t => LHit [a; b; c; e] v t end
+  end.
+Proof. destruct d; reflexivity. Qed.
+
+Lemma div256 x y : y < 256 -> (x * 256 + y) / 256 = x.
+Proof. intros H. rewrite N.div_add_l by discriminate. rewrite N.div_small by exact H. lia. Qed.
+Lemma mod256 x y : y < 256 -> (x * 256 + y) mod 256 = y.
+Proof. intros H. rewrite N.add_comm, N.mod_add by discriminate. apply N.mod_small. exact H. Qed.
+
+Lemma key_bytes_rev a b c e : a < 256 -> b < 256 -> c < 256 -> e < 256 -> key_bytes [a; b; c; e] = [e; c; b; a].
+Proof.
+  intros Ha Hb Hc He. unfold key_bytes, ip_to_key, be32. cbn [le_n].
+  change 255 with (N.ones 8). rewrite !N.land_ones, !N.shiftr_div_pow2. change (2 ^ 8) with 256.
+  rewrite !(div256 _ e He), !(div256 _ c Hc), !(div256 _ b Hb).
+  rewrite (mod256 _ e He), (mod256 _ c Hc), (mod256 _ b Hb), (N.mod_small a 256 Ha). reflexivity.
+Qed.
+
+(* "the policy set through the control plane is the one enforced": after SetSubscriberQoS the data path,
+   looking at a frame of that subscriber, finds a bucket with the policy's rate and burst, full *)
+Definition enforced (s : state) (d : dir) (ip : bytes) (r b : N) : Prop :=
+  exists v t, qos_lookup d (get_map s d) (sub_frame d ip) = LHit ip v t /\ rate t = r /\ burst t = b /\ tokens t = b.
+
+Definition valid_req (ip : bytes) (down up b pr : N) : Prop :=
+  (exists a b' c e, ip = [a; b'; c; e] /\ a < 256 /\ b' < 256 /\ c < 256 /\ e < 256) /\
+  down < W64 /\ up < W64 /\ b < W32 /\ pr < 256.
+
+Definition policy_enforced_statement : Prop := forall s viap ip down up b pr, valid_req ip down up b pr ->
+  let s' := fst (fst (step s (SetQoS viap ip down up b pr))) in
+  enforced s' Egress ip down (contract_burst down b) /\ enforced s' Ingress ip up (contract_burst up b).
+
+Lemma not_enforced_byte_order : ~ enforced (fst (fst (step init (SetQoS false [10; 0; 0; 2] 8000 8000 0 0)))) Egress [10; 0; 0; 2] 8000 65536.
+Proof. intros (v & t & H & _). vm_compute in H. discriminate. Qed.
+
+Theorem policy_enforced_refuted : ~ policy_enforced_statement.
+Proof.
+  intros H. specialize (H init false [10; 0; 0; 2] 8000 8000 0 0).
+  destruct H as (He & _).
+  - split; [exists 10, 0, 0, 2; repeat split; reflexivity|repeat split; reflexivity].
+  - apply not_enforced_byte_order. exact He.
+Qed.
+
+(* second, independent way: palindromic address (key order harmless), explicit burst: ingress ignores it *)
+Theorem policy_enforced_refuted_ingress_burst :
+  ~ enforced (fst (fst (step init (SetQoS false [7; 7; 7; 7] 80000 80000 1500 0)))) Ingress [7; 7; 7; 7] 80000 1500.
+Proof. intros (v & t & H & _ & Hb & _). vm_compute in H. inversion H; subst. vm_compute in Hb. discriminate. Qed.
+
+Definition palindromic (ip : bytes) : Prop := exists a b, ip = [a; b; b; a] /\ a < 256 /\ b < 256.
+
+Lemma clamp_burst_lt x : clamp_burst x < W32.
+Proof. unfold clamp_burst. destruct (_ <? 65536); [reflexivity|]. destruct (10485760 <? _) eqn:E; [reflexivity|]. unfold W32. lia. Qed.
+
+Lemma clamp_default r : r < 34359738368 -> clamp_burst (r / 8) = default_burst r.
+Proof.
+  intros H. unfold clamp_burst, default_burst.
+  assert (r / 8 < W32) by (apply N.div_lt_upper_bound; [discriminate|unfold W32; lia]).
+  fold W32. rewrite N.mod_small by assumption. reflexivity.
+Qed.
+
+(* guard: palindromic address, default burst (BurstBytes = 0), rates below 2^35 bit/s (34.4 Gbit/s; above,
+   uint32(bps/8) truncates before the clamp) *)
+Theorem policy_enforced_partial : forall s viap ip down up pr,
+  palindromic ip -> down < 34359738368 -> up < 34359738368 -> pr < 256 ->
+  let s' := fst (fst (step s (SetQoS viap ip down up 0 pr))) in
+  enforced s' Egress ip down (contract_burst down 0) /\ enforced s' Ingress ip up (contract_burst up 0).
+Proof.
+  intros s viap ip down up pr (a & b & -> & Ha & Hb) Hd Hu Hp. cbn [step is_v4 length N.of_nat N.eqb Pos.of_succ_nat Pos.succ Pos.eqb].
+  unfold set_qos. cbn [fst]. rewrite key_bytes_rev by assumption.
+  unfold enforced, contract_burst, egress_burst, ingress_burst. cbn [N.eqb get_map eg ing].
+  rewrite !lookup_sub_frame, !m_get_put.
+  rewrite !decode_full by (try apply clamp_burst_lt; unfold W64; lia).
+  rewrite !clamp_default by assumption.
+  split; eexists; eexists; (split; [reflexivity|cbn; repeat split; reflexivity]).
+Qed.
+
+(* ------------------------------------------------------------------ no starvation inside the guard *)
+(* the monitor's per-contract judgement run in lockstep with the bucket on the Model's own verdicts *)
+Fixpoint judge_run (c : contract) (t : tb) (pks : list (N * N)) : option N :=
+  match pks with
+  | [] => None
+  | (now, len) :: r =>
+      let '(t1, ok) := tb_step t now len in
+      match judge c len now (if ok then TC_ACT_OK else TC_ACT_SHOT) None with
+      | inr k => Some k
+      | inl c' => judge_run c' t1 r
+      end
+  end.
+
+(* decidable guard: clock monotone below 2^64, every gap a whole number of token periods, no 64-bit wrap *)
+Fixpoint exact_gaps (t0 r8 : N) (pks : list (N * N)) : Prop :=
+  match pks with
+  | [] => True
+  | (now, _) :: r => t0 <= now /\ now < W64 /\ ((now - t0) * r8) mod G = 0 /\ (now - t0) * r8 < W64 /\ exact_gaps now r8 r
+  end.
+Fixpoint exact_gapsb (t0 r8 : N) (pks : list (N * N)) : bool :=
+  match pks with
+  | [] => true
+  | (now, _) :: r => (t0 <=? now) && (now <? W64) && (((now - t0) * r8) mod G =? 0) && ((now - t0) * r8 <? W64) && exact_gapsb now r8 r
+  end.
+Lemma exact_gapsb_ok t0 r8 pks : exact_gapsb t0 r8 pks = true -> exact_gaps t0 r8 pks.
+Proof.
+  revert t0; induction pks as [|[now len] r IH]; intros t0 H; cbn in *; [exact I|].
+  rewrite !andb_true_iff in H. destruct H as ((((H1 & H2) & H3) & H4) & H5).
+  repeat split; try lia. apply IH. exact H5.
+Qed.
+
+Definition sync (t : tb) (c : contract) : Prop :=
+  c_rate c = rate t /\ c_burst c = burst t /\ c_L c = tokens t * S8 /\ c_tprev c = Some (last t) /\ c_U c = 0.
+
+Lemma S8_G : S8 = 8 * G. Proof. reflexivity. Qed.
+
+Lemma judge_step t c now len : wf t -> rate t <> 0 -> rate t = 8 * rate8 t -> sync t c ->
+  last t <= now -> now < W64 -> ((now - last t) * rate8 t) mod G = 0 -> (now - last t) * rate8 t < W64 ->
+  let '(t1, ok) := tb_step t now len in
+  wf t1 /\ rate t1 = rate t /\ last t1 = now /\
+  match judge c len now (if ok then TC_ACT_OK else TC_ACT_SHOT) None with
+  | inr k => k <> 1
+  | inl c' => sync t1 c'
+  end.
+Proof.
+  intros Hwf Hr Hr8 (Sr & Sb & SL & St & SU) Hle Hlt Hmod Hnw.
+  pose proof Hwf as (Ht & Hb & Hl).
+  set (g := now - last t) in *.
+  pose proof (N.div_mod (g * rate8 t) G ltac:(discriminate)) as Hdm. rewrite Hmod, N.add_0_r in Hdm.
+  set (q := g * rate8 t / G) in *.
+  assert (Hq : q < 18446744074).
+  { apply N.div_lt_upper_bound; [discriminate|]. unfold G, W64 in *. lia. }
+  assert (Hrefill : tb_refill t now = if burst t <? tokens t + q then burst t else tokens t + q).
+  { unfold tb_refill, refill_product. rewrite sub64_mono by lia. fold g. rewrite wrap64_small by exact Hnw. fold q.
+    unfold add64. rewrite wrap64_small by (unfold W32, W64 in *; lia). reflexivity. }
+  assert (Hcred : rate t * g = q * S8).
+  { rewrite Hr8, S8_G. replace (8 * rate8 t * g) with (8 * (g * rate8 t)) by lia. rewrite Hdm. lia. }
+  unfold tb_step. destruct (rate t =? 0) eqn:Er; [lia|].
+  rewrite Hrefill. set (t2 := if burst t <? tokens t + q then burst t else tokens t + q).
+  assert (Ht2 : t2 <= burst t) by (unfold t2; destruct (burst t <? tokens t + q) eqn:E; lia).
+  unfold judge. rewrite Sr, Er, St.
+  replace (last t <=? now) with true by (symmetry; apply N.leb_le; exact Hle). fold g.
+  rewrite Hcred, SL, Sb, SU.
+  replace (tokens t * S8 + q * S8) with ((tokens t + q) * S8) by lia.
+  assert (HLm : (if burst t * S8 <? (tokens t + q) * S8 then burst t * S8 else (tokens t + q) * S8) = t2 * S8).
+  { unfold t2. destruct (burst t <? tokens t + q) eqn:E.
+    - replace (burst t * S8 <? (tokens t + q) * S8) with true; [reflexivity|]. symmetry. apply N.ltb_lt. unfold S8. lia.
+    - replace (burst t * S8 <? (tokens t + q) * S8) with false; [reflexivity|]. symmetry. apply N.ltb_ge. unfold S8. lia. }
+  rewrite HLm. clear HLm.
+  destruct (len <=? t2) eqn:El.
+  - (* admitted *)
+    cbn [N.eqb TC_ACT_OK]. unfold wf; cbn [tokens last rate burst prio].
+    split; [lia|]. split; [reflexivity|]. split; [reflexivity|].
+    destruct (burst t * S8 <? _) eqn:EH; [cbv iota; lia|].
+    destruct (c_prio c); unfold sync; cbn [c_rate c_burst c_L c_tprev c_U tokens last rate burst];
+      (replace (len * S8 <=? t2 * S8) with true by (symmetry; apply N.leb_le; unfold S8; lia));
+      repeat split; try assumption; try reflexivity; unfold S8; lia.
+  - (* dropped *)
+    change (TC_ACT_SHOT =? TC_ACT_OK) with false. change (TC_ACT_SHOT =? TC_ACT_SHOT) with true. cbv iota.
+    unfold wf; cbn [tokens last rate burst prio].
+    split; [lia|]. split; [reflexivity|]. split; [reflexivity|].
+    assert (HU : (if c_pdrop c && (len <=? burst t) then 0 + ((tokens t + q) * S8 - t2 * S8) else 0) = 0).
+    { destruct (c_pdrop c); cbn [andb]; [|reflexivity]. destruct (len <=? burst t) eqn:Ee; [|reflexivity].
+      assert (t2 = tokens t + q) by (unfold t2 in *; destruct (burst t <? tokens t + q) eqn:E; lia). lia. }
+    rewrite HU.
+    replace ((burst t + MAXPKT) * S8 <? 0) with false by (symmetry; apply N.ltb_ge; lia).
+    unfold sync; cbn [c_rate c_burst c_L c_tprev c_U tokens last rate burst]. repeat split; try assumption; reflexivity.
+Qed.
+
+Theorem no_starvation_partial : forall pks t c,
+  wf t -> rate t <> 0 -> rate t = 8 * rate8 t -> sync t c -> exact_gaps (last t) (rate8 t) pks ->
+  judge_run c t pks <> Some 1.
+Proof.
+  induction pks as [|[now len] r IH]; intros t c Hwf Hr Hr8 Hs Hg; cbn [judge_run]; [discriminate|].
+  cbn [exact_gaps] in Hg. destruct Hg as (Hle & Hlt & Hmod & Hnw & Hrest).
+  pose proof (judge_step t c now len Hwf Hr Hr8 Hs Hle Hlt Hmod Hnw) as Hj.
+  destruct (tb_step t now len) as [t1 ok]. destruct Hj as (Hwf1 & Hr1 & Hl1 & Hj).
+  destruct (judge c len now (if ok then TC_ACT_OK else TC_ACT_SHOT) None) as [c'|k].
+  - apply IH; try assumption; try congruence.
+    + unfold rate8 in *. rewrite Hr1. exact Hr8.
+    + rewrite Hl1. replace (rate8 t1) with (rate8 t) by (unfold rate8; congruence). exact Hrest.
+  - intros H. inversion H. subst. apply Hj. reflexivity.
+Qed.
+
+(* non-vacuity of the guard: a backlogged 1000 byte/s flow with 1 ms gaps *)
+Example exact_guard_satisfiable :
+  let t := {| tokens := 1500; last := 0; rate := 8000; burst := 1500; prio := 0 |} in
+  wf t /\ rate t = 8 * rate8 t /\
+  exact_gaps (last t) (rate8 t) [(1000000, 100); (2000000, 100); (1000000000, 1500)] /\
+  sync t (new_contract Egress sub1 8000 1500 None 1500 (Some 0)).
+Proof.
+  cbv zeta. split; [unfold wf; cbn; unfold W32, W64; lia|]. split; [reflexivity|].
+  split; [apply exact_gapsb_ok; vm_compute; reflexivity|]. unfold sync. cbn. repeat split; reflexivity.
+Qed.
